@@ -297,7 +297,15 @@ func (a *Authority) ReloadAdminResources(ctx context.Context) error {
 		// update the SCEP Authority with the currently active SCEP
 		// provisioner names and revalidate the configuration.
 		a.scepAuthority.UpdateProvisioners(a.getSCEPProvisionerNames())
-		if err := a.scepAuthority.Validate(); err != nil {
+		// This method runs with adminMutex held by the admin operation
+		// that reloads, the provisioners are looked up without locking.
+		if err := a.scepAuthority.ValidateWith(func(name string) (provisioner.Interface, error) {
+			p, ok := provClxn.LoadByName(name)
+			if !ok {
+				return nil, admin.NewError(admin.ErrorNotFoundType, "provisioner %s not found", name)
+			}
+			return p, nil
+		}); err != nil {
 			log.Printf("failed validating SCEP authority: %v\n", err)
 		}
 	case !a.requiresSCEP() && a.GetSCEP() != nil:
